@@ -1,7 +1,8 @@
 (* Dispatch/DC11.v — entry points of the C11 model (PSBT summary decision logic).
    The scenario encoding is documented in harness/props/c11.py. *)
 From Coq Require Import String.
-From V Require Import Base.Prelude Base.Ints Base.Disp Model.Helper Model.Script Model.PsbtDescribe.
+From V Require Import Base.Prelude Base.Ints Base.Disp Model.Helper Model.Script Model.PsbtDescribe
+  Model.PsbtBuilder Spec.PsbtHonest.
 Open Scope string_scope.
 Open Scope Z_scope.
 
@@ -111,6 +112,67 @@ Definition v_summary (s : summary) : val :=
       VL (map (fun '(m, n, v) => VL [VI m; VI n; VI v]) (s_ins s));
       VL (map (fun '(a, c) => VL [VI a; vbool c]) (s_outs s))].
 
+(* ---- create_multisig_psbt: arguments carry the raw strings (for the implementation) and what the
+   implementation's parsers make of them (for the model); see harness/props/c11.py builder_case ---- *)
+Definition d_bytes (v : val) : option bytes := match v with VB b => Some b | _ => None end.
+Definition d_path_item (v : val) : option (bytes * bytes) :=
+  match v with VL [VB x; VB p] => Some (x, p) | _ => None end.
+Definition d_paths (v : val) : option (list (bytes * bytes)) :=
+  match v with VL l => omap d_path_item l | _ => None end.
+Definition d_brec (v : val) : option (brec bytes) :=
+  match v with
+  | VL [VB x; VB _; VB _; p; VB xid; VI depth; VI net] =>
+      path <~ d_ints p ;;
+      Some {| r_xfp := x; r_path := path; r_xpub := xid; r_depth := depth; r_net := net |}
+  | _ => None
+  end.
+Definition d_prev2 (v : val) : option prevtx :=
+  match v with
+  | VL [VB h; VL outs] => os <~ omap d_utxo outs ;; Some {| pt_hash := h; pt_outs := os |}
+  | _ => None
+  end.
+Definition d_bin (v : val) : option bin :=
+  match v with
+  | VL [VI m; paths; VB _; VB h; VI idx; VI sats; prev] =>
+      ps <~ d_paths paths ;; pt <~ d_prev2 prev ;;
+      Some {| bi_m := m; bi_paths := ps; bi_prev := pt; bi_hash := h; bi_idx := idx; bi_sats := sats |}
+  | _ => None
+  end.
+Definition d_bout (v : val) : option bout :=
+  match v with
+  | VL [VI sats; VB _; VI m; paths; spk] =>
+      ps <~ d_paths paths ;; cs <~ d_cmds spk ;;
+      Some {| bo_sats := sats; bo_spk := cs; bo_m := m; bo_paths := ps |}
+  | _ => None
+  end.
+Definition d_btab_entry (v : val) : option (bytes * bytes * option (bytes * list Z)) :=
+  match v with
+  | VL [VB x; VB p; VL []] => Some (x, p, None)
+  | VL [VB x; VB p; VL [VB s; c]] => comps <~ d_ints c ;; Some (x, p, Some (s, comps))
+  | _ => None
+  end.
+Definition btable_derive (t : list (bytes * bytes * option (bytes * list Z))) (x p : bytes)
+  : option (bytes * list Z) :=
+  match find (fun e => beq (fst (fst e)) x && beq (snd (fst e)) p) t with
+  | Some e => snd e
+  | None => None
+  end.
+
+Definition v_utxo (u : utxo) : val := VL [VI (u_amount u); v_cmds (u_spk u)].
+Definition v_prevtx (pt : prevtx) : val := VL [VB (pt_hash pt); VL (map v_utxo (pt_outs pt))].
+Definition v_pub (np : named_pub) : val :=
+  VL [VB (np_key np); VB (np_sec np); VB (np_xfp np); vil (np_path np)].
+Definition v_pin (i : pin) : val :=
+  VL [VB (i_txid i); VI (i_index i); vopt v_prevtx (i_prev_tx i); vopt v_utxo (i_prev_out i);
+      vopt v_cmds (i_redeem i); vopt v_cmds (i_witness i); VL (map v_pub (i_pubs i));
+      vopt VI (i_value i)].
+Definition v_pout (o : pout) : val :=
+  VL [VI (o_amount o); v_cmds (o_spk o); vopt v_cmds (o_redeem o); vopt v_cmds (o_witness o);
+      VL (map v_pub (o_pubs o))].
+Definition v_hdpub (h : hdpub bytes) : val := VL [VB (h_xfp h); vil (h_path h); VB (h_xpub h)].
+Definition v_psbt (p : psbt bytes) : val :=
+  VL [VL (map v_pin (p_ins p)); VL (map v_pout (p_outs p)); VL (map v_hdpub (p_hd_pubs p))].
+
 Definition vunit (r : result unit) : val := match r with Ok _ => VI 1 | Err => VErr end.
 
 Definition dispatch (H : oracle) (fn : list Z) (args : list val) : val :=
@@ -137,6 +199,24 @@ Definition dispatch (H : oracle) (fn : list Z) (args : list val) : val :=
                    | Some sc => match nthz (p_outs (sc_psbt sc)) k with
                                 | Some o => vunit (validate_out h160 s256 o)
                                 | None => bad_args end
+                   | None => bad_args end
+    | _ => bad_args end
+  else if fn_is "create_psbt" fn then
+    match args with
+    | [VL recs; VL ins; VL outs; VI fee; VL btab; VL dtab] =>
+        match omap d_brec recs, omap d_bin ins, omap d_bout outs, omap d_btab_entry btab,
+              omap d_tab_entry dtab with
+        | Some r, Some i, Some o, Some bt, Some dt =>
+            vres v_psbt (create_psbt h160 s256 bytes (table_derive dt) (btable_derive bt) r i o fee)
+        | _, _, _, _, _ => bad_args
+        end
+    | _ => bad_args end
+  else if fn_is "honest_spec" fn then
+    (* the declarative wallet relation of Spec/PsbtHonest.v (premise of C11_honest_psbt_summarised) *)
+    match args with
+    | [v; VI m] => match d_scenario v with
+                   | Some sc => vbool (honest_psbt_b h160 s256 bytes (table_derive (sc_table sc))
+                                         (sc_map sc) (sc_psbt sc) m)
                    | None => bad_args end
     | _ => bad_args end
   else if fn_is "quorum" fn then
